@@ -370,6 +370,9 @@ def oracle_pool(case, run):
         return ["incomplete output"]
     if run.deadlock or run.steplimit:
         return ["pool start / destruction does not terminate: %s" % ("DEADLOCK" if run.deadlock else "step limit")]
+    if run.stuck is not None and "pool destroyed" not in run.lines:
+        return ["pool start() / destruction hangs: every thread is blocked, only a poll time-out could continue (%s)"
+                % ("start() has not returned" if not any(l.startswith("pool n=") for l in run.lines) else "inside the destructor")]
     n = int(hdr_get(case.header, "n", "0"))
     calls = int(hdr_get(case.header, "calls", "0"))
     _, _, _, hashes = parse_case(case)
